@@ -4,7 +4,7 @@
    router model is imported.) *)
 From Coq Require Import List.
 Import ListNotations.
-From Goag Require Import Base.Str Model.GoLit Proofs.GoLitProofs.
+From Goag Require Import Base.Str Model.GoLit Proofs.GoLitProofs Model.Router Model.Serve Proofs.ServeProofs.
 
 (* For EVERY byte string without NUL (no bound on length), the Go constant
    expression emitted by encodeRawFileAsString evaluates, under Go's literal
@@ -20,3 +20,16 @@ Theorem C13_one_line_literal : forall s : str,
   contains lf s = false -> contains lf (encode s) = false.
 Proof. exact quoted_no_lf. Qed.
 Print Assumptions C13_one_line_literal.
+
+(* The served half: a request for <base path>/<spec name> is answered by the
+   spec-file handler alone — no routing, no middleware, no security — whatever
+   middlewares are installed, and only when that handler is installed. *)
+Theorem C13_served_bypass : forall s cfg rq,
+  is_spec_request s cfg rq = true -> serve s cfg rq = {| status := 200; trace := [SpecFileEv] |}.
+Proof. exact spec_file_bypass. Qed.
+Print Assumptions C13_served_bypass.
+
+Theorem C13_only_when_installed : forall s cfg rq,
+  c_sf cfg = false -> is_spec_request s cfg rq = false.
+Proof. exact spec_file_only_when_installed. Qed.
+Print Assumptions C13_only_when_installed.
